@@ -2,7 +2,7 @@
 
 use super::c06::{seeds, Seed};
 use crate::common::{self, Comp, Fail};
-use crate::driver::{norm_loc, norm_msg, watched, CaseOut, Ctx, Monitor, Tier, Watched};
+use crate::driver::{Lane, LaneKind, norm_loc, norm_msg, watched, CaseOut, Ctx, Monitor, Tier, Watched};
 use crate::rng::Rng;
 use serde_json::json;
 use std::sync::atomic::{AtomicUsize, Ordering::Relaxed};
@@ -142,6 +142,13 @@ impl Monitor for C07 {
 	}
 	fn exhaustive(&self, _tier: Tier) -> bool {
 		false
+	}
+	fn lanes(&self, _tier: Tier) -> Vec<Lane> {
+		vec![
+			Lane { kind: LaneKind::AsanQuick, name: "asan-quick", shards: vec![0], nshards: 1 },
+			Lane { kind: LaneKind::Valgrind, name: "truncate", shards: (0..16).collect(), nshards: 16 },
+			Lane { kind: LaneKind::Miri, name: "truncate", shards: (0..9).collect(), nshards: 9 },
+		]
 	}
 	fn n_cases(&self, ctx: &Ctx) -> usize {
 		let (a, b, c) = self.layout(ctx.tier);
